@@ -94,7 +94,7 @@ MORE2 = {  # worlds added with the repair-review rounds 6-8
  "C20": "; a function's return declaration and a second module's function resolved for the first time by concurrent calls, profiled write cuts",
 }
 MORE3 = {  # worlds added with the sixth round of seeded changes and review round 9
- "C04": "; a constrained type with pre_validate / post_validate hooks of its own alone at the top of a call",
+ "C04": "; a constrained type with pre_validate / post_validate hooks of its own alone at the top of a call; sets and frozensets of typing.Any given elements they cannot hash",
  "C06": "; the library's marker for 'not provided' as an input value",
  "C07": "; an aliased case-insensitive field with a dependant, a property deleter that fails after it has changed the instance",
  "C08": "; bare Generator / AsyncIterator annotations (a decoration that fails is a violation)",
